@@ -1,35 +1,148 @@
 """C10 - batched evaluation equals row-by-row evaluation."""
+import glob
 import json
 import logging
+import os
 
 from harness import core, engine
 from harness.props import c01
 
 BACKENDS = [('numpy', '64b'), ('jax', '64b'), ('pytorch', '64b'), ('tensorflow', '64b')]
 
+# every layout in which a caller may hand over the (N, npars) parameter tensor and the (N, ndata) data tensor
+LAYOUTS = ['list', 'c-array', 'f-array', 'transposed-view', 'strided-slice']
+
+# the whole of Model.expected_data (main part ++ auxiliary part) of the batched model, evaluated in Coq (BatchAux.v)
+HEADER = engine.HEADER + '''Require Import PV.Batch PV.BatchAux.
+Definition run_batched_whole (tbl : itbl) (sp : qspec) (st : settings QcNum) (rows : list (list Qc)) :=
+  match build QcNum sp with
+  | Err e => inl (err_code e)
+  | Ok m => inr (reads_in_range QcNum sp (cfg_channels QcNum sp) (cfg_samples QcNum sp) (cfg_modifiers QcNum sp) m,
+                 nmaindata QcNum sp,
+                 qoutss (expected_data_batched QcNum q_interp_add (interp_mul_q tbl) sp st m rows))
+  end.
+'''
+
+
+def lay(mat, layout, backend):
+    """the matrix `mat` (list of equal-length rows) as the tensor a caller would pass in the given layout"""
+    import numpy as np
+    a = np.array(mat, dtype=float)
+    if layout == 'list':
+        return mat
+    if layout == 'c-array':
+        x = np.ascontiguousarray(a)
+    elif layout == 'f-array':
+        x = np.asfortranarray(a)
+    elif layout == 'transposed-view':
+        x = np.ascontiguousarray(a.T).T                 # a view with swapped strides of a (npars, N) array
+    elif layout == 'strided-slice':
+        big = np.full((2 * a.shape[0] + 1, 2 * a.shape[1] + 1), 7.75)      # every second row and column of a larger array
+        x = big[1::2, 1::2]
+        x[...] = a
+    elif layout == 'native-transposed':                 # the backend's own tensor type as a transposed (non-contiguous) view
+        import pyhf
+        if backend == 'pytorch':
+            import torch
+            return torch.tensor(np.ascontiguousarray(a.T), dtype=torch.float64).t()
+        return pyhf.tensorlib.transpose(pyhf.tensorlib.astensor(np.ascontiguousarray(a.T)))
+    else:
+        raise ValueError(layout)
+    assert x.shape == a.shape and (x == a).all()
+    return x
+
+
+def layouts_for(backend, prng, quick):
+    if backend == 'numpy':
+        return LAYOUTS[1:]
+    ls = ['f-array', 'native-transposed']
+    return ls if not quick else ls[:1] + ([ls[1]] if prng.random() < 0.5 else [])
+
+
+def gen_cases(ctx, n):
+    """half of the specs from the general generator, half stratified over ALL combinations of the constrained modifier
+    families (shapesys-only, staterror-only, both; with and without alpha parameters; with and without lumi)"""
+    rng = ctx.rng
+    cases = c01.gen_cases(ctx, n - n // 2)
+    combos = engine.CONSTRAINED_COMBOS
+    off = rng.randrange(len(combos))
+    for i in range(n // 2):
+        combo = combos[(i + off) % len(combos)]
+        prof = combo + tuple(f for f in ('normfactor', 'shapefactor') if rng.random() < (0.7 if f == 'normfactor' else 0.25))
+        spec, poi = engine.gen_spec(rng, profile=prof)
+        st = dict(rng.choice(c01.SETTINGS))
+        if rng.random() < 0.15:
+            st['clip_bin'] = engine.dy(rng, 0, 5)
+        cases.append(dict(spec=spec, poi=poi, st=st, profile=list(combo)))
+    # interleave, so that every backend of the rotation sees both kinds
+    a, b = cases[:n - n // 2], cases[n - n // 2:]
+    out = []
+    while a or b:
+        if a:
+            out.append(a.pop(0))
+        if b:
+            out.append(b.pop(0))
+    return out
+
+
+def families_of(spec):
+    ts = {m['type'] for c in spec['channels'] for s in c['samples'] for m in s['modifiers']}
+    fams = []
+    for f in ('shapesys', 'staterror'):
+        if f in ts:
+            fams.append(f)
+    if ts & {'normsys', 'histosys'}:
+        fams.append('alpha')
+    if 'lumi' in ts:
+        fams.append('lumi')
+    return '+'.join(fams) or 'unconstrained'
+
+
+def same(a, b):
+    return a == b or (a != a and b != b) or abs(a - b) <= 1e-10 * max(1.0, abs(a), abs(b))
+
+
+def same_mat(x, y):
+    return len(x) == len(y) and all(len(p) == len(q) and all(same(u, v) for u, v in zip(p, q)) for p, q in zip(x, y))
+
+
+def load_corpus():
+    out = []
+    if os.environ.get('VERIF_NO_CORPUS'):        # (testing the generator alone)
+        return out
+    for f in sorted(glob.glob(os.path.join(core.VERIF, 'corpus', 'C10', '*.json'))):
+        out.append(json.load(open(f)))
+    return out
+
 
 def run(ctx):
     import pyhf
     logging.getLogger('pyhf').setLevel(logging.CRITICAL)
     rng = ctx.rng
-    ok, txt = core.prove(ctx, extra=['EngineRun.vo'])
+    ok, txt = core.prove(ctx, extra=['EngineRun.vo', 'BatchAux.vo'])
     tie = None if ok else 'proof obligations of props/C10.v no longer check: ' + txt[-1500:]
     n = ctx.n(70, 1200)
-    cases = c01.gen_cases(ctx, n)
+    corpus = load_corpus()
+    cases = corpus + gen_cases(ctx, n)
     found = False
     exprs, impls = [], []
     sigs = set()
     evaluations = 0
-    stats = dict(batch_sizes={}, backends={})
+    stats = dict(batch_sizes={}, backends={}, layouts={}, constrained_families={}, corpus=len(corpus))
     for ci, case in enumerate(cases):
         spec, poi, st = case['spec'], case['poi'], case['st']
         st = {k: v for k, v in st.items() if k in ('normsys', 'histosys', 'clip_bin')}
         case['st'] = st
         prng = core.random.Random(rng.randrange(1 << 30))
-        nb = prng.choice([1, 2, 2, 3, 4, 5, 8])
-        be = BACKENDS[0] if ctx.quick and ci % 4 else BACKENDS[1 + (ci // 4 + ctx.seed) % 3] if ctx.quick else BACKENDS[(ci + ctx.seed) % 4]
+        nb = case.get('batch_size') or prng.choice([1, 2, 2, 3, 4, 5, 8])
+        gi = ci - len(corpus)
+        be = BACKENDS[0] if ctx.quick and gi % 4 else BACKENDS[1 + (gi // 4 + ctx.seed) % 3] if ctx.quick else BACKENDS[(gi + ctx.seed) % 4]
+        if ci < len(corpus):
+            be = tuple(case.get('backend') or BACKENDS[0])
         stats['batch_sizes'][nb] = stats['batch_sizes'].get(nb, 0) + 1
         stats['backends'][be[0]] = stats['backends'].get(be[0], 0) + 1
+        fam = families_of(spec)
+        stats['constrained_families'][fam] = stats['constrained_families'].get(fam, 0) + 1
         c01.set_backend(*be)
         try:
             m1 = engine.impl_build(spec, poi, st)
@@ -41,18 +154,27 @@ def run(ctx):
             exprs.append(None)
             continue
         cfg = engine.impl_config(m1)
-        rows = [engine.gen_point(prng, spec, cfg) for _ in range(nb)]
-        rows = [[abs(p) if t != 'normal' or nme == 'lumi' or nme.startswith('staterror') else p
-                 for p, (nme, t) in zip(r, [(nn, tt) for nn, (a, b), tt in zip(cfg['par_order'], cfg['par_slices'], cfg['ptypes']) for _ in range(b - a)])] for r in rows]
+        if case.get('rows'):
+            rows = case['rows']
+        else:
+            rows = [engine.gen_point(prng, spec, cfg) for _ in range(nb)]
+            rows = [[abs(p) if t != 'normal' or nme == 'lumi' or nme.startswith('staterror') else p
+                     for p, (nme, t) in zip(r, [(nn, tt) for nn, (a, b), tt in zip(cfg['par_order'], cfg['par_slices'], cfg['ptypes']) for _ in range(b - a)])] for r in rows]
         datas = [[engine.dy(prng, 0, 50, 1.0) for _ in range(cfg['nmaindata'])] + [engine.dy(prng, 0.25, 3, 0.25) for _ in range(cfg['nauxdata'])] for _ in range(nb)]
         evaluations += nb
+        nmain = cfg['nmaindata']
         try:
-            eb = [[float(x) for x in r] for r in engine.tolist(mb.expected_data(rows))]
+            # row by row on the unbatched model: the reference of the property
             e1 = [[float(x) for x in engine.tolist(m1.expected_data(r))] for r in rows]
-            ab = [[float(x) for x in r] for r in engine.tolist(mb.expected_actualdata(rows))]
             a1 = [[float(x) for x in engine.tolist(m1.expected_actualdata(r))] for r in rows]
-            lb = [float(x) for x in engine.tolist(mb.logpdf(rows, datas))]
+            x1 = [[float(x) for x in engine.tolist(m1.expected_auxdata(r))] for r in rows] if cfg['nauxdata'] else [[] for _ in rows]
             l1 = [float(engine.tolist(m1.logpdf(r, d))[0]) for r, d in zip(rows, datas)]
+            # batched, parameters and data as lists of lists
+            eb = [[float(x) for x in r] for r in engine.tolist(mb.expected_data(rows))]
+            ab = [[float(x) for x in r] for r in engine.tolist(mb.expected_actualdata(rows))]
+            xb = [[float(x) for x in r] for r in engine.tolist(mb.expected_auxdata(rows))] if cfg['nauxdata'] else [[] for _ in rows]
+            nb_ = [[float(x) for x in r] for r in engine.tolist(mb.expected_data(rows, include_auxdata=False))]
+            lb = [float(x) for x in engine.tolist(mb.logpdf(rows, datas))]
             try:      # sampling needs valid (non-negative) rates; when the row-wise model cannot sample either, skip the shape check
                 shp1 = tuple(pyhf.tensorlib.shape(m1.make_pdf(pyhf.tensorlib.astensor(rows[0])).sample((3,))))
                 ok_rows = all(min(r) >= 0 for r in e1)
@@ -65,46 +187,71 @@ def run(ctx):
             impls.append(None)
             exprs.append(None)
             continue
-        def same(a, b):
-            return a == b or (a != a and b != b) or abs(a - b) <= 1e-10 * max(1.0, abs(a), abs(b))
         bad = []
-        if not (len(eb) == nb and all(len(x) == len(y) and all(same(p, q) for p, q in zip(x, y)) for x, y in zip(eb, e1))):
-            bad.append('expected_data')
-        if not (len(ab) == nb and all(len(x) == len(y) and all(same(p, q) for p, q in zip(x, y)) for x, y in zip(ab, a1))):
+        if not same_mat(eb, e1):
+            # name the part that differs: the main part, or only the auxiliary part (expected values of the constraint terms)
+            main_ok = same_mat([r[:nmain] for r in eb], [r[:nmain] for r in e1]) and all(len(r) == len(q) for r, q in zip(eb, e1))
+            bad.append('expected_data:aux' if main_ok else 'expected_data')
+        if not same_mat(ab, a1):
             bad.append('expected_actualdata')
+        if not same_mat(nb_, a1):
+            bad.append('expected_data(include_auxdata=False)')
+        if not same_mat(xb, x1):
+            bad.append('expected_auxdata')
         if not (len(lb) == nb and all(same(p, q) for p, q in zip(lb, l1))):
             bad.append('logpdf')
         if shp is not None and (shp != (3, nb, len(e1[0])) or shp1 != (3, len(e1[0]))):
             bad.append('sample-shape %r / %r' % (shp, shp1))
         if bad:
             ctx.violation('batched-differs:' + bad[0].split(' ')[0], 'batched model differs from row-by-row evaluation in ' + ', '.join(bad),
-                          dict(case=case, batch_size=nb, rows=rows, datas=datas, backend=be, batched=dict(expected=eb, logpdf=lb), rowwise=dict(expected=e1, logpdf=l1),
-                               theorem='C10_batched_expected_data'))
+                          dict(case=case, batch_size=nb, rows=rows, datas=datas, backend=be, layout='list', batched=dict(expected=eb, logpdf=lb),
+                               rowwise=dict(expected=e1, logpdf=l1), impl=dict(expected=eb, logpdf=lb), expected=dict(expected=e1, logpdf=l1),
+                               theorem='C10_batched_expected_data_whole'))
             found = True
-        impls.append(dict(ab=ab, rows=rows))
+        # the same tensors handed over in every other memory layout
+        for layout in ([] if bad else layouts_for(be[0], prng, ctx.quick)):      # (a failure above is reported once, not once per layout)
+            stats['layouts'][be[0] + ':' + layout] = stats['layouts'].get(be[0] + ':' + layout, 0) + 1
+            try:
+                P, D = lay(rows, layout, be[0]), lay(datas, layout, be[0])
+                el = [[float(x) for x in r] for r in engine.tolist(mb.expected_data(P))]
+                ll = [float(x) for x in engine.tolist(mb.logpdf(P, D))]
+            except Exception as e:
+                ctx.violation('batched-eval:%s:%s' % (layout, core.exc_enum(e)), 'batched evaluation fails for parameters given as %s: %s' % (layout, str(e)[:200]),
+                              dict(case=case, batch_size=nb, rows=rows, datas=datas, backend=be, layout=layout))
+                found = True
+                continue
+            lbad = (['expected_data'] if not same_mat(el, e1) else []) + (['logpdf'] if not (len(ll) == nb and all(same(p, q) for p, q in zip(ll, l1))) else [])
+            if lbad:
+                ctx.violation('batched-differs:%s:%s' % (lbad[0], layout),
+                              'batched model given the parameter/data tensors as %s differs from row-by-row evaluation in %s' % (layout, ', '.join(lbad)),
+                              dict(case=case, batch_size=nb, rows=rows, datas=datas, backend=be, layout=layout, impl=dict(expected=el, logpdf=ll),
+                                   expected=dict(expected=e1, logpdf=l1), theorem='C10_batched_expected_data_whole'))
+                found = True
+        impls.append(dict(eb=eb, rows=rows, nmain=nmain))
         if engine.nontrivial(spec):
             sigs.add(engine.shape_signature(spec) + str(nb))
-        exprs.append('run_batched [] %s %s %s' % (engine.spec_to_coq(spec, poi), engine.settings_to_coq(st), core.clist(rows, engine.qlist)))
+        exprs.append('run_batched_whole [] %s %s %s' % (engine.spec_to_coq(spec, poi), engine.settings_to_coq(st), core.clist(rows, engine.qlist)))
     c01.set_backend('numpy', '64b')
     idx = [i for i, e in enumerate(exprs) if e is not None]
     ndis = 0
     notrange = 0
     try:
-        res = dict(zip(idx, core.coq_eval(ctx, 'batched', engine.HEADER, [exprs[i] for i in idx], shard=12)))
+        res = dict(zip(idx, core.coq_eval(ctx, 'batched', HEADER, [exprs[i] for i in idx], shard=12)))
         for i in idx:
             v = core.parse_qc(res[i])
             if v[0] == 'inl':
                 ndis += 1
                 tie = tie or 'model refuses a spec the implementation builds: %s' % v[1]
                 continue
-            inrange, mrows = v[1][0], v[1][1]
+            inrange, mnmain, mrows = v[1][0], v[1][1], v[1][2]
             if inrange != 'true':
                 notrange += 1
                 tie = tie or 'cross-check of C10_reads_in_range_accepted (reads_in_range) is false on a generated model'
                 ctx.coverage.setdefault('first_disagreement', dict(case=cases[i], what='reads_in_range = false'))
             mexp = [[engine.F(x) for x in r] for r in mrows]
-            d = [dd for a, b in zip(impls[i]['ab'], mexp) for dd in engine.diff_vec('row', a, b)]
-            if d or len(mexp) != len(impls[i]['ab']):
+            # main part and auxiliary part of the batched expected data against the Coq model
+            d = [dd for a, b in zip(impls[i]['eb'], mexp) for dd in engine.diff_vec('row', a, b)]
+            if d or len(mexp) != len(impls[i]['eb']) or mnmain != impls[i]['nmain']:
                 ndis += 1
                 ctx.coverage.setdefault('first_disagreement', dict(case=cases[i], rows=impls[i]['rows'], diffs=str(d[:2])[:500]))
                 tie = tie or 'batched model and implementation disagree: %r' % (d[:1],)
@@ -114,16 +261,33 @@ def run(ctx):
         ctx.violation('tie-broken', tie[:300], dict(kind='tie', detail=tie, theorem='props/C10.v / batched correspondence',
                                                      first_disagreement=ctx.coverage.get('first_disagreement')), nofail=True)
     ctx.coverage.update(evaluations=evaluations, distinct_nontrivial=len(sigs), stats=stats, model_impl_disagreements=ndis, premise_false=notrange,
-                        rule='C01 spec generator x batch sizes 1..8 x distinct rows (positive factors) x backend rotation: batched expected_data, '
-                             'expected_actualdata, logpdf against the unbatched model row by row (1e-10), sample shapes (3, N, ndata); the Coq '
-                             'batched model (flat index arithmetic) against pyhf; premise reads_in_range evaluated for every generated model',
+                        rule='corpus, then specs half from the C01 generator and half stratified over all 12 combinations of the constrained '
+                             'modifier families (shapesys / staterror / both x alpha x lumi) x batch sizes 1..8 x distinct rows (positive factors) x '
+                             'backend rotation: batched expected_data (main AND auxiliary part), expected_actualdata, expected_auxdata, '
+                             'expected_data(include_auxdata=False), logpdf against the unbatched model row by row (1e-10), sample shapes (3, N, ndata); '
+                             'parameter and data tensors handed over as list of lists and (numpy) C-ordered, Fortran-ordered, transposed-view and '
+                             'strided-slice arrays, (other backends) Fortran-ordered numpy array and the backend\'s own transposed view; the Coq '
+                             'batched model (flat index arithmetic; main ++ auxiliary part) against pyhf; premise reads_in_range evaluated for '
+                             'every generated model',
                         samples=[dict(spec=cases[0]['spec'], rows=(impls[0] or {}).get('rows'))])
 
 
 def replay(body):
     import pyhf
+    logging.getLogger('pyhf').setLevel(logging.CRITICAL)
     case = body['case']
-    c01.set_backend(*body.get('backend', ('numpy', '64b')))
+    be = tuple(body.get('backend') or ('numpy', '64b'))
+    c01.set_backend(*be)
+    layout = body.get('layout') or 'list'
+    m1 = engine.impl_build(case['spec'], case['poi'], case['st'])
     mb = engine.impl_build(case['spec'], case['poi'], case['st'], batch_size=body['batch_size'])
-    print(engine.tolist(mb.expected_data(body['rows'])))
+    rows = body['rows']
+    out = dict(layout=layout, backend=list(be))
+    out['batched_expected_data'] = engine.tolist(mb.expected_data(lay(rows, layout, be[0])))
+    out['rowwise_expected_data'] = [engine.tolist(m1.expected_data(r)) for r in rows]
+    if body.get('datas'):
+        out['batched_logpdf'] = engine.tolist(mb.logpdf(lay(rows, layout, be[0]), lay(body['datas'], layout, be[0])))
+        out['rowwise_logpdf'] = [engine.tolist(m1.logpdf(r, d))[0] for r, d in zip(rows, body['datas'])]
+    out['equal'] = same_mat([[float(x) for x in r] for r in out['batched_expected_data']], [[float(x) for x in r] for r in out['rowwise_expected_data']])
+    print(json.dumps(out, indent=1, default=str))
     return 0
